@@ -37,6 +37,7 @@ struct SideCfg {
 struct Setup {
     SideCfg cli, srv;
     bool accept_override = false, keep_open = false, reversed = false;
+    int cli_ns = 0;              // the connecting thread's network namespace has a name: 1 entry in /run/netns is a (bind-mounted) file, 2 a symbolic link
     bool accept_relax = false;   // the server got its whole policy (with explicit CA / CRL / names) at creation; the accept map switches one feature off
     std::string tp;
     int edit_before = 0;       // 0 none, 1 rewrite in place (equal size), 2 write-new + rename over, 3 symlink flip, 4 environment switch
@@ -90,6 +91,7 @@ static void gen(uint64_t seed, const std::string &prop, Plan &plan) {
         o.n.push_back((int64_t)r.chance(0.1));   // reversed TLS roles
         o.n.push_back((int64_t)(r.chance(0.5) ? r.below(5) : 0));   // edit before
         o.n.push_back((int64_t)r.chance(0.2));   // the xcm_accept_a map switches one feature of the server's policy off
+        o.n.push_back((int64_t)(r.chance(0.3) ? 1 + r.below(2) : 0));   // named network namespace on the connecting side
         plan.ops.push_back(o);
     }
     p["step_budget"] = 900000;
@@ -132,12 +134,12 @@ static std::string pad_to(std::string s, size_t n) { while (s.size() < n) s += '
 static std::string cur_dir() { return TX->dir_gen ? "/certB" : "/certA"; }
 
 // writes a credential set into a directory; all files are padded to a fixed size so that an in-place rewrite never changes st_size
-static void write_set(const std::string &dir, const SideCfg &c, int how) {
+static void write_set(const std::string &dir, const SideCfg &c, int how, const std::string &ns = "") {
     const Ident &id = TX->pki.ids[(size_t)c.ident];
-    struct F { const char *name; std::string data; } files[] = {{"cert.pem", pad_to(cert_pem(id), 2600)}, {"key.pem", pad_to(id.leaf->key_pem, 400)}, {"tc.pem", pad_to(tc_pem(c.tc_mask), 1400)}, {"crl.pem", pad_to(TX->pki.crl_all, 2200)}};
+    struct F { const char *name; std::string data; } files[] = {{"cert", pad_to(cert_pem(id), 2600)}, {"key", pad_to(id.leaf->key_pem, 400)}, {"tc", pad_to(tc_pem(c.tc_mask), 1400)}, {"crl", pad_to(TX->pki.crl_all, 2200)}};
     K->mkdir_p(dir);
     for (auto &f : files) {
-        std::string path = dir + "/" + f.name;
+        std::string path = dir + "/" + f.name + (ns.empty() ? "" : "_" + ns) + ".pem";   // per-namespace naming: cert_<ns>.pem
         if (how == 2) { K->write_file(path + ".new", f.data, true); K->rename_over(path + ".new", path); }
         else K->write_file(path, f.data, false);
     }
@@ -290,14 +292,28 @@ static void program(const Plan *pl) {
             std::string cdir = strf("/cdir%d", sidx);
             SideCfg decoy = cc;
             if (cc.supply == SUP_MIXED) decoy.ident = (cc.ident + 1) % (int)TX->pki.ids.size();   // the directory's own cert/key are somebody else's: by-value must win
-            write_set(cdir, decoy, 1);
+            if (st.cli_ns) {
+                // the connecting thread lives in a named network namespace: /run/netns/blue is a bind-mounted file or a symbolic link
+                // to the namespace file; the directory holds the designated material under the namespace's names and somebody
+                // else's under the default names
+                K->mkdir_p("/run/netns");
+                K->remove_path("/run/netns/blue");
+                if (st.cli_ns == 1) { K->write_file("/run/netns/blue", "", true); K->fs["/run/netns/blue"].dev = 4; K->fs["/run/netns/blue"].ino = 4026531001ULL; }
+                else { K->mkdir_p("/nsfs"); K->write_file("/nsfs/net1", "", false); K->fs["/nsfs/net1"].dev = 4; K->fs["/nsfs/net1"].ino = 4026531001ULL; K->symlink("/nsfs/net1", "/run/netns/blue"); }
+                write_set(cdir, decoy, 1, "blue");
+                SideCfg wrong = decoy;
+                wrong.ident = (decoy.ident + 2) % (int)TX->pki.ids.size();
+                if (wrong.ident == cc.ident) wrong.ident = (wrong.ident + 1) % (int)TX->pki.ids.size();
+                write_set(cdir, wrong, 1);
+                G->count(st.cli_ns == 1 ? "probe.netns_named_by_file" : "probe.netns_named_by_symlink");
+            } else write_set(cdir, decoy, 1);
             K->env["XCM_TLS_CERT"] = cdir;
         }
         struct xcm_attr_map *cm = attrs_for(cc, sid, stream, st.reversed ? 0 : -1, true, true, cfiles);
         {
             Task *t = cur();
             int saved = t->netns;
-            if (st.tp == "utls") t->netns = 1;
+            if (st.tp == "utls" || st.cli_ns) t->netns = 1;
             XSock *cli = x_connect(addr, cm, true, strf("cli%d", sidx));
             t->netns = saved;
             int cli_errno = errno;
@@ -415,6 +431,7 @@ static void setup(const Plan &plan) {
         }
         if (st.srv.supply == SUP_MIXED) st.srv.supply = SUP_DIR;   // (the server's directory is the process-wide one)
         st.accept_override = op.arg(18) != 0; st.keep_open = op.arg(19) != 0; st.reversed = op.arg(20) != 0; st.edit_before = (int)op.arg(21);
+        st.cli_ns = (st.cli.supply == SUP_DIR || st.cli.supply == SUP_MIXED) ? (int)op.arg(23) : 0;
         st.accept_relax = op.arg(22) != 0 && !st.accept_override && !st.srv.invalid && st.srv.auth;
         if (st.srv.invalid && st.cli.invalid) st.cli.invalid = 0;
         TX->setups.push_back(st);
